@@ -56,12 +56,12 @@ def handle (j : Json) : Except String Json := do
   let c ← jNContent fns (← field j "content")
   let bad ← jList jStr (fieldD j "bad" (.arr #[]))
   let qs ← jArr (fieldD j "queries" (.arr #[]))
-  let prog := resJ programJ ((toSymbolicRepr bad c).map genMxlpy)
+  let prog := resJ programJ ((toSymbolicRepr bad c).bind genMxlpy)
   let orig ← qs.mapM (Driver.H_core.query c.toContent)
   match roundTrip bad c with
-  | .error e => pure (Json.mkObj [("program", prog), ("hyp", .bool (refsResolve c)), ("hypInput", .bool (keysInjective c && argsNoDup c)), ("rt", Json.mkObj [("err", errJ e)]), ("orig", .arr orig.toArray)])
+  | .error e => pure (Json.mkObj [("program", prog), ("hyp", .bool (refsResolve c)), ("hypInput", .bool (keysInjective c && argsNoDup c)), ("hypSrc", .bool (refsSrcOk c)), ("hypKeys", .bool (keysInjective c)), ("rt", Json.mkObj [("err", errJ e)]), ("orig", .arr orig.toArray)])
   | .ok c' => do
     let rs ← qs.mapM (Driver.H_core.query c')
-    pure (Json.mkObj [("program", prog), ("hyp", .bool (refsResolve c)), ("hypInput", .bool (keysInjective c && argsNoDup c)), ("rt", Json.mkObj [("ok", .arr rs.toArray)]), ("orig", .arr orig.toArray)])
+    pure (Json.mkObj [("program", prog), ("hyp", .bool (refsResolve c)), ("hypInput", .bool (keysInjective c && argsNoDup c)), ("hypSrc", .bool (refsSrcOk c)), ("hypKeys", .bool (keysInjective c)), ("rt", Json.mkObj [("ok", .arr rs.toArray)]), ("orig", .arr orig.toArray)])
 
 end Driver.H_c11
